@@ -10,6 +10,7 @@ import (
 	corev1 "k8s.io/api/core/v1"
 	apiequality "k8s.io/apimachinery/pkg/api/equality"
 	metav1 "k8s.io/apimachinery/pkg/apis/meta/v1"
+	"k8s.io/apimachinery/pkg/api/meta"
 	"k8s.io/apimachinery/pkg/labels"
 	"k8s.io/apimachinery/pkg/types"
 	"pgregory.net/rapid"
@@ -46,11 +47,17 @@ type C10Case struct {
 	// the second set is itself reconciled (by the same controller) before the ops listed in OtherAt
 	OtherReplicas int   `json:"other_replicas,omitempty"`
 	OtherAt       []int `json:"other_at,omitempty"`
+	// Twin: a set with the SAME name lives in another namespace (ns2) with pods of the same names, and is
+	// reconciled by the same controller before the ops listed in TwinAt; nothing may cross the namespace border
+	Twin         bool  `json:"twin,omitempty"`
+	TwinReplicas int   `json:"twin_replicas,omitempty"`
+	TwinAt       []int `json:"twin_at,omitempty"`
 }
 
 func (c C10Case) Summary() interface{} {
 	return map[string]interface{}{"world": summarizeWorld(c.W), "extra_pods": c.XPods, "extra_revs": c.XRevs, "second_set": c.Other,
-		"second_set_replicas": c.OtherReplicas, "second_set_reconciled_before_ops": c.OtherAt}
+		"second_set_replicas": c.OtherReplicas, "second_set_reconciled_before_ops": c.OtherAt,
+		"same_name_in_other_namespace": c.Twin, "twin_replicas": c.TwinReplicas, "twin_reconciled_before_ops": c.TwinAt}
 }
 
 func ownerRefKind(kind int, set *asv1.StatefulSet) []metav1.OwnerReference {
@@ -95,6 +102,14 @@ func genC10(rt *rapid.T) C10Case {
 			c.OtherAt = append(c.OtherAt, rapid.IntRange(0, len(c.W.Ops)).Draw(rt, "otherAt"))
 		}
 	}
+	if rapid.IntRange(0, 3).Draw(rt, "twin") == 0 {
+		c.Twin = true
+		c.TwinReplicas = rapid.IntRange(0, 4).Draw(rt, "twinReplicas")
+		n := rapid.IntRange(1, 4).Draw(rt, "twinN")
+		for i := 0; i < n; i++ {
+			c.TwinAt = append(c.TwinAt, rapid.IntRange(0, len(c.W.Ops)).Draw(rt, "twinAt"))
+		}
+	}
 	np := rapid.IntRange(0, 5).Draw(rt, "nxpods")
 	for i := 0; i < np; i++ {
 		c.XPods = append(c.XPods, XPod{
@@ -126,6 +141,23 @@ func applyExtras(s *Sys, c C10Case) {
 		o.Spec.Selector = set.Spec.Selector.DeepCopy()
 		o.Spec.Template.Labels = map[string]string{"app": set.Name}
 		s.C.Put(o)
+	}
+	if c.Twin {
+		t := baseSet(NS2, set.Name, int32(c.TwinReplicas))
+		t.UID = "twin-uid"
+		t.Spec.Selector = set.Spec.Selector.DeepCopy()
+		t.Spec.Template = *set.Spec.Template.DeepCopy()
+		t = s.C.Put(t).(*asv1.StatefulSet)
+		img := t.Spec.Template.Spec.Containers[0].Image
+		// two of its own pods, one orphan it may adopt, one pod of the OTHER namespace's set by reference only in name
+		for ord := 0; ord < 3; ord++ {
+			p := mkPod(t, ord, "", img, 3, false)
+			p.UID = types.UID(fmt.Sprintf("twinpod-%d", ord))
+			if ord == 2 {
+				p.OwnerReferences = nil
+			}
+			s.C.Put(p)
+		}
 	}
 	for i, x := range c.XPods {
 		var name string
@@ -403,6 +435,29 @@ func monOther(rep Rep, r *sim.Record, cacheBefore []sim.CachedObj) (wrote bool) 
 	return
 }
 
+const NS2 = "ns2"
+
+// monNamespace: every API call of a reconcile of ns/name stays inside that namespace.
+func monNamespace(rep Rep, r *sim.Record, ns string) (wrote bool) {
+	if r.Panic != nil {
+		rep.Violate("panic", "reconcile panicked: %v\n%s", r.Panic, r.Stack)
+	}
+	for _, a := range r.Actions {
+		if a.IsWrite() {
+			wrote = true
+		}
+		if a.Namespace != ns && (a.IsWrite() || a.Verb == "get") {
+			rep.Violate("namespace/crossed", "a reconcile of a set in namespace %q issued %s in namespace %q\n%s", ns, a, a.Namespace, r.Transcript())
+		}
+		if a.IsWrite() && a.Verb != "create" {
+			if m, err := meta.Accessor(a.Before); err == nil && a.Before != nil && m.GetNamespace() != ns {
+				rep.Violate("namespace/crossed", "a reconcile of a set in namespace %q wrote %s, an object of namespace %q\n%s", ns, a, m.GetNamespace(), r.Transcript())
+			}
+		}
+	}
+	return
+}
+
 func okName(set, pod string) bool {
 	_, ok := model.Canonical(set, pod)
 	return ok
@@ -420,6 +475,9 @@ func runC10(rep Rep, c C10Case) {
 	s.OnRecord = func(r *sim.Record, op *Op) {
 		if r.Panic != nil {
 			rep.Violate("panic", "reconcile panicked: %v\n%s", r.Panic, r.Stack)
+		}
+		if c.Twin {
+			monNamespace(rep, r, NS)
 		}
 		if v := NewView(r); v != nil {
 			if monC10(rep, v, cacheBefore) {
@@ -448,9 +506,49 @@ func runC10(rep Rep, c C10Case) {
 			rep.Label("second-set-reconcile-wrote")
 		}
 	}
+	twinAt := map[int]bool{}
+	for _, i := range c.TwinAt {
+		twinAt[i] = true
+	}
+	reconcileTwin := func() {
+		if !c.Twin || s.C.Set(NS2, s.Name) == nil {
+			return
+		}
+		if w.EventMode {
+			s.SyncCachesNotify()
+		} else {
+			s.C.RefreshAll()
+		}
+		before := map[string]string{}
+		for _, p := range s.C.PodsIn(NS) {
+			before[p.Name] = p.ResourceVersion
+		}
+		cb := s.C.CacheSnapshot()
+		r := s.C.Reconcile(NS2 + "/" + s.Name)
+		s.Trace = append(s.Trace, func() string { return "[twin in ns2] " + strings.TrimRight(r.Transcript(), "\n") })
+		if monNamespace(rep, r, NS2) {
+			nt = true
+			rep.Label("twin-namespace-reconcile-wrote")
+		}
+		after := map[string]string{}
+		for _, p := range s.C.PodsIn(NS) {
+			after[p.Name] = p.ResourceVersion
+		}
+		if fmt.Sprint(before) != fmt.Sprint(after) {
+			rep.Violate("namespace/crossed", "reconciling %s/%s changed pods of namespace %s: %v -> %v\n%s", NS2, s.Name, NS, before, after, r.Transcript())
+		}
+		for _, co := range cb {
+			if !apiequality.Semantic.DeepEqual(co.Obj, co.Copy) {
+				rep.Violate("cache/object-mutated", "an object read from a cache was modified by the reconcile of the twin set: before %v after %v\n%s", co.Copy, co.Obj, r.Transcript())
+			}
+		}
+	}
 	for i := range w.Ops {
 		if otherAt[i] {
 			reconcileOther()
+		}
+		if twinAt[i] {
+			reconcileTwin()
 		}
 		cacheBefore = nil
 		if w.Ops[i].K == OpReconcile && w.Ops[i].InterAt == 0 {
@@ -474,6 +572,9 @@ func runC10(rep Rep, c C10Case) {
 	}
 	if otherAt[len(w.Ops)] {
 		reconcileOther()
+	}
+	if twinAt[len(w.Ops)] {
+		reconcileTwin()
 	}
 	rep.FP(worldFPAny(c))
 	if nt {
